@@ -1023,6 +1023,7 @@ const POISON: [u8; 7] = [0x00, b'0', b'9', 0xff, b'z', b'.', b'-'];
 pub fn gen_history(seed: u64, sw: &Swarm) -> Vec<Event> {
     let mut r = Rng::fork(seed, 2);
     let mut ev = Vec::with_capacity(sw.n_events);
+    let mut issued: Vec<Op> = Vec::new();
     for _ in 0..sw.n_events {
         let t = r.below(sw.threads as u64) as usize;
         let x = r.below(1000);
@@ -1035,10 +1036,19 @@ pub fn gen_history(seed: u64, sw: &Swarm) -> Vec<Event> {
                 t,
                 pat: *r.pick(&POISON),
             });
-        } else {
+        } else if !issued.is_empty() && r.chance(2, 25) {
+            // the same call again, later, possibly from another worker: must give the same answer
+            let op = issued[r.below(issued.len() as u64) as usize].clone();
             ev.push(Event::Exec {
                 t,
-                op: gen_op(&mut r, sw),
+                op,
+            });
+        } else {
+            let op = gen_op(&mut r, sw);
+            issued.push(op.clone());
+            ev.push(Event::Exec {
+                t,
+                op,
             });
         }
     }
